@@ -74,6 +74,13 @@ def judge_front(ctx, obs_path, cfg, prop, describe, replay_kind="front"):
         if confirm_front(ctx, rp):
             seen.add(v["what"])
             ctx.add_violation("%s: %s | %s" % (prop, v["what"], describe(o, v)), rp)
+            continue
+        # the answer may depend on what the same process handled just before (a cache, a pool, a package-level table): the
+        # candidate is then replayed in a fresh process after the texts that preceded it
+        rp = dict(kind=replay_kind, property=prop, cfg=cfg, case=o, history=[obs[j]["text"] for j in range(max(0, v["id"] - 8), v["id"])])
+        if confirm_front(ctx, rp):
+            seen.add(v["what"])
+            ctx.add_violation("%s: %s (only after the %d preceding texts were handled by the same process) | %s" % (prop, v["what"], len(rp["history"]), describe(o, v)), rp)
         else:
             raise Infra("candidate did not reproduce: %s" % v)
 
